@@ -36,7 +36,8 @@
        (the command resolves but execvp fails ->
           o = exited, status <> 0, the child's diagnostic)                        *)
 From Robsd Require Import Conf.ConfDefs Conf.SchedDefs.
-From Robsd Require Import Exec.ArgvSpec Exec.ArgvProofs Exec.ArgvRun Exec.ArgvSignal Exec.SchedBridge.
+From Robsd Require Import Exec.ArgvSpec Exec.ArgvProofs Exec.ArgvRun Exec.ArgvSignal Exec.SchedBridge Exec.RunnerBridge.
+From Robsd Require Exec.KillExit.
 From RobsdGen Require Import Gen_Conf.
 From Coq Require Import String.
 Local Open Scope N_scope.
@@ -98,6 +99,13 @@ Theorem C06_view_of_parsed : forall E m text c tr name argv xs,
    ArgvDefs.resolve true (view_of E m c' tr xs) tr name = RArgv argv).
 Proof. exact bridge_view. Qed.
 Print Assumptions C06_view_of_parsed.
+
+(* the second hypothesis of C06_view_of_parsed holds unless the configuration stored a variable called trace while it
+   was parsed (${trace} evaluated at parse time, e.g. canvas-dir "${trace}/x": the case of C06_trace_flag_shadowed) *)
+Theorem C06_trace_resolves : forall E m c tr,
+  find_var (c_vars c) TRACE = None -> benv E m c tr TRACE <> None.
+Proof. exact benv_trace. Qed.
+Print Assumptions C06_trace_resolves.
 
 (* the vector of a script step (every step of robsd, robsd-cross, robsd-ports, every fixed step and every test
    of robsd-regress, the end step of canvas): sh -eu, -x exactly with the trace flag, the script path and the
@@ -189,9 +197,9 @@ Theorem C06_alarm_only_when_armed : forall m regress_timeout tr t s,
 Proof. exact alarm_only_when_armed. Qed.
 Print Assumptions C06_alarm_only_when_armed.
 
-(* C07's hand-written decoding of the wait status is the function C06 is about *)
-Theorem C06_exitstatus_models_agree : forall st g, 0 <= st -> KillDefs.exitstatus st g = exit_spec st g.
-Proof. exact kill_exitstatus_is_exit_spec. Qed.
+(* C07's hand-written decoding of the wait status is the function C06 is about, on every pair of integers *)
+Theorem C06_exitstatus_models_agree : forall st g, KillDefs.exitstatus st g = exit_spec st g.
+Proof. exact KillExit.kill_exitstatus_spec. Qed.
 Print Assumptions C06_exitstatus_models_agree.
 
 (* EXCEPTION 1 (exact, by design of regress-timeout): with a SIGALRM caught the status is 124 whatever the
@@ -220,7 +228,51 @@ Theorem C06_handshake_late_nonzero : forall cv trace name kern g,
 Proof. exact handshake_late_nonzero. Qed.
 Print Assumptions C06_handshake_late_nonzero.
 
-(* a command of which nothing is left after interpolation (every element renders empty; canvas
+(* ... and when a SIGTERM reaches the runner while it waits for the child on that path (the handler is installed
+   without SA_RESTART: waitpid returns -1, step_fork returns 1): status 1 at once, whatever the command does.
+   This is the path on which C06's and C07's models used to differ; see C06_one_runner below. *)
+Theorem C06_handshake_late_interrupted : forall cv trace name kern g,
+  exists r, run_fork true cv trace name kern g HsLateIntr = Exited r /\ rr_exit r <> 0 /\ rr_diag r <> [] /\
+    (forall argv, resolve true cv trace name = RArgv argv ->
+       rr_argv r = Some argv /\ rr_diag r = [DGroupFail] /\ rr_exit r = 1).
+Proof. exact handshake_late_interrupted. Qed.
+Print Assumptions C06_handshake_late_interrupted.
+
+(* ONE RUNNER MODEL.  C07's transition system (Exec/KillDefs.v: the program counters of step_exec / step_fork /
+   killwaitpg1, signal arrivals, members of the group exiting, the handshake) and [run_fork] are the same runner:
+   for EVERY execution of that system that ends in an exit with status c, [run_fork] - told the wait status the
+   main process had ([kern] constant), the gotsig the runner had, and which of the three handshake cases the
+   execution is in ([hs_of]: in time / late / late and interrupted by SIGTERM) - exits with the same c.  Hence
+   C06_runner_exit_zero_iff, C06_handshake_late_nonzero and C06_handshake_late_interrupted speak about the exits of
+   C07's system; [kern] and [g] of those theorems are instantiated, not free. *)
+Theorem C06_one_runner : forall t timeout tr s c cv trace name argv,
+  KillDefs.exec tr (KillDefs.init_tree t timeout) = Some s -> KillDefs.s_pc s = KillDefs.PExit c ->
+  resolve true cv trace name = RArgv argv ->
+  exists d, run_fork true cv trace name (fun _ => KWait (KillDefs.s_status s)) (KillDefs.s_gotsig s) (hs_of s)
+            = Exited (mkrun (Some argv) c d).
+Proof. exact runner_models_agree. Qed.
+Print Assumptions C06_one_runner.
+
+(* the path where they used to differ, explicitly: handshake failed, runner blocked in waitpid(pid), SIGTERM *)
+Theorem C06_late_handshake_sigterm : forall t timeout tr s s1 s2 cv trace name kern g argv,
+  KillDefs.exec tr (KillDefs.init_tree t timeout) = Some s -> KillDefs.s_pc s = KillDefs.PFailWaiting ->
+  KillDefs.arrive KillDefs.SIGTERM s = Some s1 -> KillDefs.rstep s1 = Some s2 ->
+  resolve true cv trace name = RArgv argv ->
+  KillDefs.s_pc s2 = KillDefs.PExit 1 /\ hs_of s2 = HsLateIntr /\
+  run_fork true cv trace name kern g HsLateIntr = Exited (mkrun (Some argv) 1 [DGroupFail]).
+Proof. exact late_handshake_sigterm_agree. Qed.
+Print Assumptions C06_late_handshake_sigterm.
+
+(* on the failure path no alarm is armed, gotsig is never SIGALRM: exitstatus(status, 0) there IS exitstatus(status, gotsig) *)
+Theorem C06_no_alarm_on_late_path : forall t timeout tr s,
+  KillDefs.exec tr (KillDefs.init_tree t timeout) = Some s -> KillDefs.s_slow s = true ->
+  KillDefs.s_gotsig s <> KillDefs.SIGALRM.
+Proof. exact gotsig_never_alarm_late. Qed.
+Print Assumptions C06_no_alarm_on_late_path.
+
+(* HISTORICAL PINS about the run proper on the empty vector - what step_exec did before /repo 8e76449, and what
+   it would do again without the test (C06_empty_command_is_error below is about the source in force):
+   a command of which nothing is left after interpolation (every element renders empty; canvas
    command { "${trace}" }): the vector is empty, the child calls execvp(NULL, ...), which cannot run anything -
    the runner reports a non-zero status with a diagnostic.  This is the case the oracle spec_ok_step demands
    failure for (ExpRun []); theorem and oracle now agree (C06_oracle_accepts_model). *)
@@ -229,6 +281,55 @@ Theorem C06_empty_argv : forall cv trace name kern g,
   exists r, run_with true cv trace name kern g = Exited r /\ rr_exit r <> 0 /\ rr_diag r <> [].
 Proof. exact empty_argv. Qed.
 Print Assumptions C06_empty_argv.
+
+(* what the runner reports for the empty vector, by what execvp(NULL, ...) does in the child on the platform: -1
+   (status 1, the child's diagnostic) or death from signal s (status 128+s, "process group exited" only) *)
+Theorem C06_empty_argv_status : forall cv trace name kern g,
+  resolve true cv trace name = RArgv [] -> g <> sigalrm ->
+  (kern [] = KNoExec -> run_with true cv trace name kern g = Exited (mkrun (Some []) 1 [DExec; DExited 1])) /\
+  (forall s core, 1 <= s <= 126 -> kern [] = KWait (w_signaled s core) ->
+     run_with true cv trace name kern g = Exited (mkrun (Some []) (128 + s) [DExited (128 + s)])).
+Proof. exact empty_argv_status. Qed.
+Print Assumptions C06_empty_argv_status.
+
+(* THE LITERAL READING of "... yields a non-zero status with a diagnostic RATHER THAN A CRASH" for the empty vector
+   ([empty_argv_no_crash]: the status is not 128+N) is REFUTED by what glibc does - the forked child of robsd-exec
+   dereferences the NULL name and dies from SIGSEGV, status 139 (replayed: corpus/C06/s4-empty-command.json; the
+   harness measures the platform with tools/argvnullexec.c on every run) - and holds where execvp returns -1. *)
+Theorem C06_empty_argv_no_crash_refuted : ~ empty_argv_no_crash.
+Proof. exact empty_argv_no_crash_refuted. Qed.
+Print Assumptions C06_empty_argv_no_crash_refuted.
+
+Theorem C06_empty_argv_no_crash_partial : forall cv trace name kern g,
+  resolve true cv trace name = RArgv [] -> kern [] = KNoExec -> g <> sigalrm ->
+  exists r, run_with true cv trace name kern g = Exited r /\ rr_exit r = 1 /\ In DExec (rr_diag r).
+Proof. exact empty_argv_no_crash_partial. Qed.
+Print Assumptions C06_empty_argv_no_crash_partial.
+
+(* ---- a command of which nothing is left after interpolation: refused since /repo 8e76449 ---- *)
+
+(* step_exec as a whole ([step_exec_run]): between resolve_step_command and step_fork the source now tests
+   command[0] == NULL.  For every resolution other than the empty vector step_exec IS the run proper, so the
+   theorems about [run_with] / [run_fork] are about step_exec ... *)
+Theorem C06_step_exec_is_run_fork : forall echk checked cv trace name kern g hs,
+  resolve checked cv trace name <> RArgv [] ->
+  step_exec_run echk checked cv trace name kern g hs = run_fork checked cv trace name kern g hs.
+Proof. exact step_exec_run_nonempty. Qed.
+Print Assumptions C06_step_exec_is_run_fork.
+
+(* ... and for the empty vector THE CLAUSE HOLDS NOW, with no assumption about the platform: nothing is forked,
+   nothing executed, status 1 (below 128: no process of robsd-exec dies from a signal), diagnostic "empty step
+   command" - whatever execvp(NULL, ...) would do, whatever signal arrives, whatever the handshake.  The translator
+   tells which body step_exec has ([empty_command_checked]); this stops compiling when the test is removed. *)
+Theorem C06_empty_command_is_error : empty_command_is_error empty_command_checked.
+Proof. exact (empty_command_if_checked eq_refl eq_refl). Qed.
+Print Assumptions C06_empty_command_is_error.
+
+(* HISTORICAL PIN (the body before 8e76449; replayed then: exit 139 on glibc, corpus/C06/s4-empty-command.json):
+   without the test the clause fails where execvp(NULL, ...) kills the caller *)
+Theorem C06_empty_command_unchecked_refuted : ~ empty_command_is_error false.
+Proof. exact empty_command_unchecked_refuted. Qed.
+Print Assumptions C06_empty_command_unchecked_refuted.
 
 (* ---- unresolvable is an error, never a crash ---- *)
 
@@ -321,6 +422,24 @@ Theorem C06_oracle_accepts_model : forall cv trace name kern g kx,
   exists r, run_with true cv trace name kern g = Exited r /\ spec_ok_step cv trace name kx (obs_of kern r) = true.
 Proof. exact oracle_accepts_model. Qed.
 Print Assumptions C06_oracle_accepts_model.
+
+(* ... and every run of step_exec as the source has it now, with no assumption about execvp(NULL, ...) *)
+Theorem C06_oracle_accepts_step_exec : forall cv trace name kern g kx,
+  (0 < empty_exit)%Z ->
+  (forall argv, resolve true cv trace name = RArgv argv -> argv <> [] -> arranged kx kern g argv) ->
+  exists r, step_exec_run true true cv trace name kern g HsOk = Exited r /\
+            spec_ok_step cv trace name kx (obs_of kern r) = true.
+Proof. exact oracle_accepts_step_exec. Qed.
+Print Assumptions C06_oracle_accepts_step_exec.
+
+(* the hook oracle accepts every run of robsd-hook's model: [hobs_of] is what the harness sees (nothing and
+   status 0; the command in robsd-hook's place with the status arranged for it; a failure with a diagnostic),
+   [harranged]: execvp succeeds exactly when the harness did not make the command unexecutable *)
+Theorem C06_oracle_accepts_hook : forall m cv vs execok kx,
+  harranged kx execok ->
+  spec_ok_hook m cv vs kx (hobs_of (hook_run m cv vs execok) kx) = true.
+Proof. exact oracle_accepts_hook. Qed.
+Print Assumptions C06_oracle_accepts_hook.
 
 (* ---- non-vacuity ---- *)
 Local Open Scope string_scope.
